@@ -257,6 +257,42 @@ example : authBearer demoWorld ((⟨.rs256, .server, .future, .absent, .name "ro
 example : authBearer demoWorld ((⟨.hs512, .server, .future, .past, .name "wo"⟩ : JwtTok).abstract true)
     = .inner (some ⟨"wo", "q", false, false, [("db0", .write)]⟩) := by decide
 
+/-! ## the arrow flight handshake -/
+
+/-- a token is issued only to a name/password pair `Client.Authenticate` accepts — with
+`auth_cache_sound`: the user's current password. -/
+theorem flight_issues_only_authenticated (w : World) (c c' : AuthCache) (st st' : FlightSt) (name pass : String) (i : Nat)
+    (hc : CacheOk c) (he : st.enabled = true)
+    (h : flightAuth authCacheChecksBase w c st name pass = (.token i, st', c')) :
+    ∃ u, w.findUser name = some u ∧ u.password = pass ∧ st'.issued = st.issued ++ [name] ∧ i = st.issued.length := by
+  unfold flightAuth at h
+  simp only [he, Bool.not_true, Bool.false_eq_true, if_false] at h
+  cases hau : authCached authCacheChecksBase w c name pass with
+  | mk ou c2 =>
+    rw [hau] at h
+    cases ou with
+    | none => simp at h
+    | some u =>
+      simp only [Prod.mk.injEq, FlightAuthAns.token.injEq] at h
+      obtain ⟨hi, hst, _⟩ := h
+      obtain ⟨hf, hp, _⟩ := auth_cache_sound w c c2 name pass u hc hau
+      exact ⟨u, hf, hp, by rw [← hst], hi.symm⟩
+
+/-- with flight authentication on, a token is valid only if it was issued, and for the user it
+was issued to; no other text (empty, garbage, the "success" constant of the open mode) is. -/
+theorem flight_valid_only_issued (st : FlightSt) (tok : Option Nat) (n : String)
+    (he : st.enabled = true) (h : flightValid st tok = some n) : ∃ i, tok = some i ∧ st.issued[i]? = some n := by
+  unfold flightValid at h
+  simp only [he, Bool.not_true, Bool.false_eq_true, if_false] at h
+  cases tok with
+  | none => cases h
+  | some i => exact ⟨i, rfl, h⟩
+
+example : (flightAuth true demoWorld [] ⟨true, []⟩ "ro" "p").1 = .token 0 := by decide
+example : (flightAuth true demoWorld [] ⟨true, []⟩ "ro" "x").1 = .denied := by decide
+example : flightValid ⟨true, ["ro"]⟩ (some 0) = some "ro" ∧ flightValid ⟨true, ["ro"]⟩ none = none
+    ∧ flightValid ⟨true, ["ro"]⟩ (some 1) = none := by decide
+
 /-! ## registration switches -/
 
 def allCfgs : List Cfg :=
